@@ -49,9 +49,23 @@ struct tracked
     tracked& operator=(tracked&&) = default;
     ~tracked() { --g_live; }
 };
+// error payloads are counted too: an exception object that an adaptor stored and never released
+// (e.g. two errors written over each other) shows up as a leak
 struct term_error
 {
     int e;
+    explicit term_error(int x)
+      : e(x)
+    {
+        ++g_live;
+    }
+    term_error(term_error const& o)
+      : e(o.e)
+    {
+        ++g_live;
+    }
+    term_error& operator=(term_error const&) = default;
+    ~term_error() { --g_live; }
 };
 using any_s = ex::unique_any_sender<tracked>;
 
@@ -74,6 +88,10 @@ struct helper_threads
     }
 };
 static helper_threads g_helpers;
+// in "gate" runs the helper threads of leaves that were started before the consumer's start() returned
+// complete together, right after it returned (concurrent completions of sibling inputs)
+static std::atomic<int> g_gate{1};
+static std::atomic<int> g_expected{0}, g_arrived{0};    // rendezvous of the gated helper threads
 
 template <int Kind>    // 0 value, 1 error, 2 stopped
 struct leaf_sender
@@ -103,11 +121,22 @@ struct leaf_sender
         {
             if (timing == 0) complete();
             else if (timing == 1)
-                g_helpers.add(std::thread([this] {
-                    for (int i = 0; i < 100 + (payload * 7919 + timing * 104729 + (int) (reinterpret_cast<std::uintptr_t>(this) >> 4)) % 3000; ++i)
+            {
+                bool gated = !g_gate.load();
+                if (gated) ++g_expected;
+                g_helpers.add(std::thread([this, gated] {
+                    while (!g_gate.load()) {}
+                    if (gated)
+                    {
+                        // complete together with the sibling leaves (within nanoseconds)
+                        ++g_arrived;
+                        while (g_arrived.load() < g_expected.load()) {}
+                    }
+                    for (int i = 0; i < (payload * 7919 + (int) (reinterpret_cast<std::uintptr_t>(this) >> 4)) % 48; ++i)
                         asm volatile("" ::: "memory");
                     complete();
                 }));
+            }
             else ex::execute(ex::thread_pool_scheduler{}, [this] { complete(); });
         }
     };
@@ -169,6 +198,7 @@ struct builder
     std::vector<std::string> tok;
     std::size_t pos = 0;
     vlog::rng* R;
+    bool pool_bias = false;    // prefer completions from pool tasks (concurrent sibling completions)
     std::string timings;
     std::string next() { return tok.at(pos++); }
     any_s build()
@@ -177,6 +207,7 @@ struct builder
         if (op == "just" || op == "fail" || op == "stop")
         {
             int timing = (int) R->below(3);
+            if (pool_bias && R->chance(1, 2)) timing = 2;
             timings += char('0' + timing);
             if (op == "just") return any_s(leaf_sender<0>{std::stoi(next()), timing});
             if (op == "fail") return any_s(leaf_sender<1>{std::stoi(next()), timing});
@@ -316,6 +347,11 @@ int main(int argc, char** argv)
             std::string t;
             while (ls >> t) b.tok.push_back(t);
             b.R = &R;
+            b.pool_bias = std::getenv("VERIF_POOL_BIAS") != nullptr;
+            bool gate = R.chance(1, 2);
+            g_expected = 0;
+            g_arrived = 0;
+            g_gate = gate ? 0 : 1;
             any_s s = b.build();
             timings = b.timings;
             auto op = ex::connect(std::move(s), ledger_receiver{o});
@@ -327,6 +363,7 @@ int main(int argc, char** argv)
                 while (std::chrono::steady_clock::now() < t) {}
             }
             ex::start(op);
+            g_gate = 1;
             {
                 std::unique_lock<std::mutex> l(o->m);
                 hang = !o->cv.wait_for(l, std::chrono::seconds(12), [&] { return o->nsig > 0; });
